@@ -21,6 +21,8 @@ static int g_init = 0;           // 0 = not yet, 1 = in progress, 2 = done
 static uint64_t g_state = 0;
 static unsigned g_level = 0;     // 0 = pass through
 static __thread int g_inside = 0;
+static unsigned long g_calls = 0;
+unsigned long c10_shim_calls(void) { return g_level ? g_calls : 0; } // evidence that the shim is loaded and active
 
 // bootstrap arena for calloc calls made by dlsym itself
 static char g_boot[65536];
@@ -88,6 +90,7 @@ static void perturb(void) {
 
 void *malloc(size_t n) {
 	if (g_init != 2) { if (g_init == 1) return bootAlloc(n); init(); }
+	g_calls++;
 	perturb();
 	return r_malloc(pad(n));
 }
